@@ -86,6 +86,17 @@ C07_final(h) == /\ Acyclic(P!VEdges(h.post)) \/ ~Acyclic(P!VEdges(h.pre))
                 /\ \A i \in DOMAIN h.post : i \notin h.post[i].deps
                 /\ \A i, j \in DOMAIN h.post : (j \in h.post[i].deps) <=> (i \in h.post[j].rdeps)
 
+\* concurrent halves of sequential properties: the same explanation, asked of
+\* the scenarios that exercise prune / failing commands / epic references
+C09_serial(h) == h.facts.crashes = 0 => Explained(h)
+C10_serial(h) == h.facts.crashes = 0 => Explained(h)
+C14_final(h) == \A t \in P!VTasks(h.post) : P!EpicRefOK(h.post, t)
+\* prune tells the truth about what it removed
+C16_prune_truth(h) ==
+  LET prunes == {k \in Succ(h) : h.procs[k].cmd.name = "prune"}
+      told == UNION {h.procs[k].reply.pruned : k \in prunes}
+  IN (h.facts.crashes = 0 /\ prunes # {}) => told \cap DOMAIN h.pre = DOMAIN h.pre \ DOMAIN h.post
+
 (***************************************************************************)
 (* C13 - a lock-free reader succeeds and shows a state the store passed    *)
 (* through: the view of some whole-event prefix between the logs on disk   *)
@@ -122,6 +133,14 @@ C03_only_own_missing(h) ==
 C03_continues(h) ==
   h.facts.crashes > 0 =>
      \A k \in 1..Len(h.after) : h.after[k].readable /\ (h.after[k].mutation => h.after[k].exit = 0 /\ h.after[k].ineffect)
+\* what existed when the dust settled is untouched by the continuation (which
+\* only adds a task, closes it and compacts)
+C03_acked_survive(h) ==
+  h.facts.crashes > 0 =>
+     \A k \in 1..Len(h.after) : h.after[k].readable =>
+        \A i \in DOMAIN h.post :
+           /\ i \in DOMAIN h.after[k].view
+           /\ NoTime(h.after[k].view)[i] = NoTime(h.post)[i]
 C04_all_or_nothing(h) ==
   (h.facts.crashes > 0 /\ h.facts.readable_after_crash /\ h.facts.torn = "between" /\ Cardinality(Idx(h)) = 1) =>
      LET p == h.procs[1]
